@@ -7,7 +7,8 @@
 EXTENDS SpanUpdater, Json, IOUtils, TLC
 Traces == JsonDeserialize(IOEnv.TRACE_FILE)
 NT == Len(Traces)
-VARIABLE tid
+VARIABLES tid, bucket
+NB == 64
 T(t) == Traces[t]
 Clauses == {"C04.noraise", "C10.inrange", "C10.monotone", "C10.startend"}
 Holds(cl, t) ==
@@ -20,14 +21,15 @@ Holds(cl, t) ==
                                  (tr.right[x] <= tr.right[y] /\ tr.left[x] <= tr.left[y])
     [] cl = "C10.startend" -> \A x, y \in 1..(tr.la + 1) : x < y => tr.right[x] <= tr.left[y]
     [] OTHER -> FALSE
-TInit == tid \in 1..NT
-TSpec == TInit /\ [][FALSE /\ UNCHANGED tid]_tid
-Judge == \A cl \in Clauses : Holds(cl, tid) \/ PrintT(<<"FAIL", tid, cl>>)
-Conform == T(tid).raised = "" =>
+TInit == tid = 0 /\ bucket \in 0..(NB - 1)
+TNext == tid = 0 /\ (\E t \in {x \in 1..NT : x % NB = bucket} : tid' = t) /\ UNCHANGED bucket
+TSpec == TInit /\ [][TNext]_<<tid, bucket>>
+Judge == tid # 0 => \A cl \in Clauses : Holds(cl, tid) \/ PrintT(<<"FAIL", tid, cl>>)
+Conform == (tid # 0 /\ T(tid).raised = "") =>
    LET tr == T(tid)  rs == Ranges(tr.script) IN
    ( /\ LenBefore(tr.script) = tr.la /\ LenAfter(tr.script) = tr.lb
      /\ \A x \in 1..(tr.la + 1) : /\ Upd(rs, x - 1, "right")[1] = tr.right[x]
                                   /\ Upd(rs, x - 1, "left")[1] = tr.left[x] )
    \/ PrintT(<<"DRIFT", tid>>)
-Done == PrintT(<<"DONE", tid>>)
+Done == tid # 0 => PrintT(<<"DONE", tid>>)
 =============================================================================
